@@ -109,6 +109,7 @@ def run(ctx):
     ctx.not_decided = NOT
     prog = ctx.prog("infinity_pool")
     ctx.rule("R10.checked-entry-points-check", "every insert entry point of the opaque pools that is not `_unchecked` verifies T's layout against the pool's (itself, or by forwarding to a checked entry point)", floor=6)
+    ctx.rule("R11.twin-agreement", "each operation of a thread-safe pool and of its single-threaded twin (OpaquePool/LocalOpaquePool, PinnedPool/LocalPinnedPool, BlindPool/LocalBlindPool) forwards to the same raw-pool operation: the twins differ in locking only", floor=20, shape_dependent=True)
     ctx.rule("R1.storage-immobility", "alloc only in Slab::new, dealloc only in Slab::drop, no realloc; first_slot_ptr only set in the aggregate built by Slab::new", floor=4)
     ctx.rule("R2.slab-vector", "every method called on RawOpaquePool::slabs is in the order-preserving set; push/extend/truncate only in their sanctioned functions", floor=8)
     ctx.rule("R2.layout-map", "the blind pools' BTreeMap of inner pools is never shrunk (no remove/clear/retain/pop/drain/append/split_off)", floor=3)
@@ -388,6 +389,7 @@ def shared_rules(ctx, prog):
         "R4.restore-before-destroy": "bookkeeping done after (or undone around) the destructor leaves the free list pointing at a live or foreign slot when the destructor panics or re-enters",
     })
     checked_entry_points(ctx, prog)
+    twin_agreement(ctx, prog)
 
 
 
@@ -576,3 +578,33 @@ def checked_entry_points(ctx, prog):
                f"calls {sorted({t['callee'].get('method') for _b, t in unchecked})}; own layout comparison (object_layout) dominating it: {ok}")
     if n == 0:
         ctx.missing(RID, "checked insert entry points of the opaque pools")
+
+
+def twin_agreement(ctx, prog):
+    PLUMBING = {"deref", "deref_mut", "new", "as_ref", "as_mut", "borrow", "borrow_mut", "lock", "clone"}
+    pairs = [("opaque::pool_managed::OpaquePool", "opaque::pool_local::LocalOpaquePool"),
+             ("pinned::pool_managed::PinnedPool", "pinned::pool_local::LocalPinnedPool"),
+             ("blind::pool_managed::BlindPool", "blind::pool_local::LocalBlindPool")]
+
+    def raw_calls(b):
+        out = set()
+        for bd in [b] + prog.closures_of(b):
+            for _bb, t in bd.calls():
+                k = callee_key(t["callee"])
+                if "pool_raw" in k and "Iterator" not in k:
+                    out.add(k.split("::")[-1])
+        return out - PLUMBING
+    n = 0
+    for a, l in pairs:
+        am = {b.name: b for b in prog.bodies if b.key.startswith("infinity_pool::" + a + "::") and not b.is_closure and not b.impl_trait}
+        lm = {b.name: b for b in prog.bodies if b.key.startswith("infinity_pool::" + l + "::") and not b.is_closure and not b.impl_trait}
+        for name in sorted(set(am) & set(lm)):
+            ra, rl = raw_calls(am[name]), raw_calls(lm[name])
+            if not ra or not rl:
+                continue   # one twin implements the operation without the raw pool (e.g. by iterating its inner pools)
+            n += 1
+            ctx.fn(lm[name])
+            ctx.ob("R11.twin-agreement", f"{a.split('::')[-1]}::{name}", ra == rl, lm[name].loc(),
+                   f"thread-safe twin forwards to {sorted(ra)}, single-threaded twin to {sorted(rl)}")
+    if n == 0:
+        ctx.missing("R11.twin-agreement", "twin pool operations")
